@@ -78,7 +78,7 @@ PROPS = {
         'explanation': 'swap decision and dispatch split proved for all balances/prices/rates; get_swap_info driven through the real SwapToRewardDenom with fixed balances over the whole price range [1e-18,1e18]; whole index updates on the minichain',
     },
     'C10': {
-        'families': [matrix('c10'), gen('admin', 15, 100), gen('mixed', 10, 100)],
+        'families': [gen('deploy', 25, 60), matrix('c10'), gen('admin', 15, 100), gen('mixed', 10, 100)],
         'slice': [r'hub\..*', r'tok\..*', r'reward\..*', r'disp\..*', r'reg\..*'],
         'exhaustive': True,
         'thorough_mult': 4,
@@ -87,6 +87,7 @@ PROPS = {
                        'judged against the principal table read from the implementation\'s own queries; plus admin/mixed histories',
     },
     'C11': {
+        'corpus': ['legacy-zero-amount-first.ops'],
         'families': [matrix('c11'), gen('admin', 20, 100)],
         'slice': [r'hub\..*', r'env\.legacy'],
         'exhaustive': True,
@@ -95,7 +96,7 @@ PROPS = {
                        '12 random histories re-run with a pause/blocked-call/unpause cycle inserted at a random position and compared with the uninterrupted run',
     },
     'C20': {
-        'families': [matrix('c20'), gen('admin', 20, 100)],
+        'families': [gen('deploy', 25, 60), matrix('c20'), gen('admin', 20, 100)],
         'slice': [r'hub\.uparams', r'hub\.uconfig', r'disp\.u.*', r'reward\.u.*', r'reg\.uconfig', r'inst\..*'],
         'exhaustive': True,
         'thorough_mult': 4,
@@ -104,7 +105,7 @@ PROPS = {
     },
     'C16': {
         'corpus': ['crowd-migrate.ops'],
-        'families': [gen('token', 30, 120), gen('mixed', 20, 120), gen('rewards', 10, 120), gen('crowd', 10, 200)],
+        'families': [gen('deploy', 25, 60), gen('token', 30, 120), gen('mixed', 20, 120), gen('rewards', 10, 120), gen('crowd', 10, 200)],
         'slice': [r'tok\..*', r'reward\.inc', r'reward\.dec', r'hub\.bond', r'inst\.bsei', r'inst\.reward', r'env\.migrate'],
         'explanation': 'mirror invariant through the message queue proved for every bSei message and every mirror message; Balance/TokenInfo vs Holder/State compared for the whole cast after every operation of token histories by holders, spenders and the hub',
     },
@@ -127,15 +128,15 @@ PROPS = {
         'explanation': 'epoch gate, single write of consecutive batch ids, release only after the unbonding period, finality of released entries proved on the model; AllHistory snapshots compared between all steps with time advances landing on, one before and one after the epoch and maturity boundaries',
     },
     'C01': {
-        'corpus': ['D1.ops', 'D5.ops', 'zero-arrival-release.ops'],
+        'corpus': ['D1.ops', 'D5.ops', 'zero-arrival-release.ops', 'release-pair-one-unit-short.ops'],
         'families': [gen('release', 40, 120, deep=True), gen('dust', 20, 120, deep=True), gen('mixed', 15, 120)],
         'slice': [r'hub\.withdraw', r'env\.advance', r'env\.slashu', r'env\.donate', r'tok\.send\.unbond', r'tok\.sendfrom\.unbond'],
         'explanation': 'payout = recorded share, single payment, order independence and the single-batch allocation bound proved; release groups of many batches with slashed unbonding stake, donations, many users per batch: released claims vs hub balance after every step, payout recomputed, second withdrawal, unfunded-claim probe (clone with extra coins)',
     },
     'C13': {
-        'corpus': ['reg-remove-zero-delegation.ops', 'reg-remove-last-idle.ops', 'reg-remove-while-paused.ops'],
+        'corpus': ['reg-remove-zero-delegation.ops', 'reg-remove-last-idle.ops', 'reg-remove-while-paused.ops', 'reg-remove-with-inactive-peer.ops'],
         'families': [gen('registry', 40, 120), gen('mixed', 15, 120)],
-        'slice': [r'reg\..*', r'hub\.redel', r'hub\.bond', r'hub\.bondst', r'hub\.ugi', r'env\.noredel'],
+        'slice': [r'reg\..*', r'hub\.redel', r'hub\.bond', r'hub\.bondst', r'hub\.ugi', r'env\.noredel', r'env\.inactive'],
         'explanation': 'registry removal / hub proxy / chain redelegation proved step by step (plan sums to the whole delegation via C12, targets still registered); end-to-end RemoveValidator transactions on the minichain with pending rewards, in-flight batches, blocked redelegations, removal and re-addition sequences',
     },
     'C19': {
